@@ -456,7 +456,7 @@ func genServe(g *hx.Gen, out *hx.Out) {
 	for l := 1; l < 4; l++ {
 		emit(make([]byte, l))
 	}
-	for _, decl := range []uint32{1, 5, 16 << 20, 16<<20 + 1, 32 << 20, 1 << 31, 1<<32 - 1} {
+	for _, decl := range []uint32{1, 5, 16<<20 - 1, 16 << 20, 16<<20 + 1, 16<<20 + 2, 16<<20 + 3, 16<<20 + 4, 16<<20 + 5, 16<<20 + 8, 16<<20 + 1024, 17 << 20, 32 << 20, 1 << 31, 1<<32 - 1} {
 		var hdr [4]byte
 		binary.BigEndian.PutUint32(hdr[:], decl)
 		emit(hdr[:])
